@@ -276,7 +276,11 @@ func discharge(o *Oblig, lits []*Term, workDir string, idx int, tsec int, allAgr
 			}
 		}
 	}
-	for _, b := range backends[:3] {
+	portfolio := backends[:3]
+	if o.ExpectFail && !allAgree && !qf {
+		portfolio = nil
+	}
+	for _, b := range portfolio {
 		first, out, secs := runSolver(b, file, tsec)
 		v.Seconds += secs
 		v.Tried = append(v.Tried, b.name+":"+first)
@@ -303,7 +307,7 @@ func discharge(o *Oblig, lits []*Term, workDir string, idx int, tsec int, allAgr
 			v.Output = truncate(out, 2000)
 		}
 	}
-	if nUnsat == 0 && !qf {
+	if nUnsat == 0 && !qf && !o.ExpectFail {
 		// Quantifier instantiation can be derailed by hypotheses the goal does not need. Dropping hypotheses only weakens what is
 		// assumed, so a proof from a subset is a proof: retry with each quantified hypothesis left out in turn (in parallel).
 		var qidx []int
